@@ -5,11 +5,11 @@ Argument validation as the engine sees it (`InterpretedQuery::from_query_and_arg
 
 * `validQ t v : Bool` — the *relation* "value `v` is valid for type `t`": `null` iff that level is
   nullable, lists element-wise against the tail of the flags, `Int64`/`Uint64` for a non-list `Int`,
-  `Float64`/`String`/`Boolean` for their base names, enum values excluded (the real function hits
-  `unimplemented!` on them).  It is total and never "panics"; it agrees with the mask-based
-  `Ty.isValidValue` of `Model/Ty.lean` on enum-free values (connection: `Proofs/Ty.lean`'s `Shape`
-  refinement; not yet linked formally here).
-* `validValueR` / `validateArgs` — the function as executed (enum values: `panic`), a copy of the
+  `Float64`/`String`/`Boolean` for their base names, enum values excluded (valid for no type).  It
+  agrees with the mask-based `Ty.isValidValue` of `Model/Ty.lean` on all values
+  (`Proofs/ArgsBridge.lean`: `validQ_iff`).
+* `validValueR` / `validateArgs` — the function as executed (enum values: `false`; history: they
+  were `unimplemented!` = `panic` before the repair of F-14; `all` short-circuits), a copy of the
   definitions the `exec` driver command uses (`Driver/Engine.lean`), with the local `let rec`s made
   top-level so that they can be reasoned about.
 * `ArgsOK ir args` — "the engine accepts the argument values".
@@ -44,13 +44,14 @@ end
 def validQ (t : QTy) (v : Value) : Bool := validNulls t.nulls t.base v
 
 mutual
-/-- `Type::is_valid_value` as executed (enum values: `unimplemented!`; `all` short-circuits). -/
+/-- `Type::is_valid_value` as executed (enum values: `false`; `all` short-circuits).  Never
+`panic`/`fuel`; the result type `R` is kept for the callers. -/
 def validValueR : List Bool → Name → Value → R Bool
   | [], _, _ => .ok false
   | nullable :: rest, base, v =>
     match v with
     | .null => .ok nullable
-    | .enum _ => .panic "is_valid_value: enum unimplemented!"
+    | .enum _ => .ok false
     | .list items => if rest.isEmpty then .ok false else validValuesR rest base items
     | .int64 _ => .ok (rest.isEmpty && base == "Int")
     | .uint64 _ => .ok (rest.isEmpty && base == "Int")
